@@ -520,8 +520,18 @@ class DAG(nx.DiGraph):
                 f"Model must be an instance of DAG. Got type: {type(model)}"
             )
 
+        def immoralities_with_collider(dag):
+            # An immorality is the triple X -> Z <- Y; the collider Z is part of it.
+            return {
+                (frozenset(parents), node)
+                for node in dag.nodes()
+                for parents in itertools.combinations(dag.predecessors(node), 2)
+                if not dag.has_edge(parents[0], parents[1])
+                and not dag.has_edge(parents[1], parents[0])
+            }
+
         if (self.to_undirected().edges() == model.to_undirected().edges()) and (
-            self.get_immoralities() == model.get_immoralities()
+            immoralities_with_collider(self) == immoralities_with_collider(model)
         ):
             return True
         return False
